@@ -10,10 +10,12 @@ import (
 	"io"
 	"math/rand"
 	"os"
+	"sort"
 	"strconv"
 	"strings"
 	"testing"
 	"testing/synctest"
+	"time"
 
 	"github.com/hashicorp/raft"
 )
@@ -138,6 +140,7 @@ type world struct {
 	trans    *nullTrans
 	mono     bool
 	restoreC bool
+	noPV     bool // PreVoteDisabled
 	trailing int
 	maxAE    int
 	dead     bool
@@ -160,6 +163,7 @@ func (w *world) start() (ok bool) {
 	conf.TrailingLogs = uint64(w.trailing)
 	conf.MaxAppendEntries = w.maxAE
 	conf.RestoreCommittedLogs = w.restoreC
+	conf.PreVoteDisabled = w.noPV
 	w.trans = &nullTrans{addr: "11", ch: make(chan raft.RPC)}
 	w.c.reset(-1, -1)
 	defer func() {
@@ -270,6 +274,7 @@ type event struct {
 	sizeOk                    bool
 	failAt, crashAt           int // -1 none
 	role, leader, leaderID    int
+	resps                     []peerResp
 }
 
 func (e event) tok() string {
@@ -294,8 +299,22 @@ func (e event) tok() string {
 		return "RD"
 	case 'K':
 		return "K " + fc
+	case 'G':
+		p := []string{"G", strconv.Itoa(len(e.resps))}
+		for _, r := range e.resps {
+			p = append(p, fmt.Sprintf("%d %d %d %d %d %d %d", r.id, r.pvErr, r.pvTerm, b2i(r.pvGranted), b2i(r.vErr), r.vTerm, b2i(r.vGranted)))
+		}
+		return strings.Join(p, " ")
 	}
 	return string(e.kind)
+}
+
+func intsJoin(a []int) string {
+	p := make([]string, len(a))
+	for i, x := range a {
+		p[i] = strconv.Itoa(x)
+	}
+	return strings.Join(p, " ")
 }
 
 func hdr(id, addr int) raft.RPCHeader {
@@ -346,6 +365,59 @@ func (w *world) apply(e event) string {
 			w.r.VerifSetLeader(raft.ServerAddress(strconv.Itoa(e.leader)), raft.ServerID(strconv.Itoa(e.leaderID)))
 		}
 		return w.obs(false, "n")
+	}
+	if e.kind == 'G' { // one pass of the candidate loop against scripted peers
+		w.c.reset(-1, -1)
+		w.trans.mu.Lock()
+		w.trans.script = map[int]peerResp{}
+		for _, r := range e.resps {
+			w.trans.script[r.id] = r
+		}
+		w.trans.sent = nil
+		w.trans.mu.Unlock()
+		panicked := func() (p bool) {
+			defer func() {
+				if x := recover(); x != nil {
+					p = true
+				}
+			}()
+			w.r.VerifRunCandidate()
+			return false
+		}()
+		if panicked {
+			ops := w.c.ops
+			w.stop()
+			_ = w.start()
+			w.c.ops = ops
+			return w.obs(true, "n")
+		}
+		time.Sleep(50 * time.Millisecond) // stragglers among the requests
+		synctest.Wait()
+		w.trans.mu.Lock()
+		sent := w.trans.sent
+		w.trans.script = nil
+		w.trans.mu.Unlock()
+		var pre, vote []int
+		term, li, lt, tr, consistent := uint64(0), uint64(0), uint64(0), false, true
+		for k, q := range sent {
+			if q.kind == 'P' {
+				pre = append(pre, q.peer)
+			} else {
+				vote = append(vote, q.peer)
+				tr = tr || q.transfer
+			}
+			if k == 0 {
+				term, li, lt = q.term, q.lastIdx, q.lastTerm
+			} else if q.term != term || q.lastIdx != li || q.lastTerm != lt {
+				consistent = false
+			}
+		}
+		sort.Ints(pre)
+		sort.Ints(vote)
+		if !consistent {
+			term = 999999
+		}
+		return w.obs(false, fmt.Sprintf("c %d %s %d %s %d %d %d %d", len(pre), intsJoin(pre), len(vote), intsJoin(vote), term, li, lt, b2i(tr)))
 	}
 	if e.kind == 'K' { // takeSnapshot, as the snapshot goroutine runs it
 		w.c.reset(e.failAt, e.crashAt)
@@ -736,6 +808,7 @@ func runHandlersCase(rng *rand.Rand, thorough bool, out *bufio.Writer, st *stats
 	restoreC := rng.Intn(3) == 0
 	trailing := 1 + rng.Intn(3)
 	w := newWorld(mono, restoreC, trailing, 3)
+	w.noPV = rng.Intn(4) == 0
 	g := &gen{rng: rng, w: w}
 	curTerm, voteTerm, candPresent, cand, log, staged, snaps := g.initial()
 	// populate the stores directly (not counted as events)
@@ -774,6 +847,41 @@ func runHandlersCase(rng *rand.Rand, thorough bool, out *bufio.Writer, st *stats
 	tags := map[string]bool{}
 	for i := 0; i < nev && !w.dead; i++ {
 		e := g.event()
+		if rng.Intn(9) == 0 && !w.dead {
+			// the candidate loop: make the server a candidate, then let it campaign against scripted peers
+			d := w.r.VerifDump()
+			if d.State != raft.Candidate {
+				e = event{kind: 'S', role: 1, failAt: -1, crashAt: -1}
+			} else {
+				e = event{kind: 'G', failAt: -1, crashAt: -1}
+				t1 := int(d.Term) + 1
+				for _, sv := range unCfg(d.Latest) {
+					if sv.id == 1 {
+						continue
+					}
+					r := peerResp{id: sv.id, pvTerm: t1, vTerm: t1, pvGranted: rng.Intn(5) < 3, vGranted: rng.Intn(5) < 3}
+					switch rng.Intn(10) {
+					case 0:
+						r.pvErr = 1
+					case 1:
+						r.pvErr = 2
+					case 2:
+						r.pvTerm = t1 + 1 + rng.Intn(2)
+					case 3:
+						r.pvTerm = t1 - 1
+					}
+					switch rng.Intn(10) {
+					case 0:
+						r.vErr = true
+					case 1:
+						r.vTerm = t1 + 1 + rng.Intn(2)
+					}
+					if rng.Intn(8) != 0 { // sometimes a peer does not answer at all (no script: transport error)
+						e.resps = append(e.resps, r)
+					}
+				}
+			}
+		}
 		if e.kind == 'R' && rng.Intn(2) == 0 && (w.damageOK() || rng.Intn(40) == 0) {
 			e.kind = 'D' // the newest readable snapshot is damaged, then the restart
 		}
@@ -802,7 +910,7 @@ func runHandlersCase(rng *rand.Rand, thorough bool, out *bufio.Writer, st *stats
 		st.Hist[tag]++
 	}
 	w.stop()
-	caseLine := fmt.Sprintf("CF %d %d %d %d DU %s EV %d %s", b2i(mono), b2i(restoreC), trailing, 3, initDur, len(evs), strings.Join(evs, " "))
+	caseLine := fmt.Sprintf("CF %d %d %d %d %d DU %s EV %d %s", b2i(mono), b2i(restoreC), trailing, 3, b2i(w.noPV), initDur, len(evs), strings.Join(evs, " "))
 	caseLine = strings.Join(strings.Fields(caseLine), " ")
 	implLine := fmt.Sprintf("%d %s", len(obs), strings.Join(obs, " "))
 	fmt.Fprintln(out, caseLine)
@@ -841,7 +949,7 @@ func TestEngine(t *testing.T) {
 	synctest.Test(t, func(t *testing.T) {
 		switch *flagEngine {
 		case "handlers":
-			st.Rule = "random: a plausible durable image (0..8 entries incl. configuration entries, optional snapshot + compacted prefix, whole / half-written / old vote record, plain / monotonic / commit-tracking store) then 3..12 [thorough: 5..34] events on the real server: AppendEntries 40% (prev at/near the end, right term 5/6, duplicates/conflicts/new entries), RequestVote 25%, RequestPreVote 8%, InstallSnapshot 9%, restart 6%, TimeoutNow 4%, role change 8%; 1/8 of the RPCs with a store write failing and 1/8 with a crash at a write ordinal; non-trivial = some request was granted / succeeded"
+			st.Rule = "random: a plausible durable image (0..8 entries incl. configuration entries, optional snapshot + compacted prefix, whole / half-written / old vote record, plain / monotonic / commit-tracking store) then 3..12 [thorough: 5..34] events on the real server: AppendEntries 40% (prev at/near the end, right term 5/6, duplicates/conflicts/new entries), RequestVote 25%, RequestPreVote 8%, InstallSnapshot 9%, restart 5%, local snapshot 4%, TimeoutNow 4%, role change 8%, and 1/9 of the events drive one pass of the real candidate loop against scripted peers (pre-vote / vote answers granted or refused, newer terms, transport errors, peers without pre-vote support, silent peers; pre-vote disabled in 1/4 of the cases); 1/8 of the RPCs with a store write failing and 1/8 with a crash at a write ordinal; non-trivial = some request was granted / succeeded"
 			seen := map[string]bool{}
 			for k := 0; k < *flagN; k++ {
 				runHandlersCase(rng, *flagThorough, out, st, seen)
